@@ -580,3 +580,53 @@ Proof.
   rewrite (Hh eq_refl). destruct (is_pipeline_key k); [|reflexivity].
   destruct (getv t (model_flag_key k)) as [v|]; [|discriminate]. intros ->. reflexivity.
 Qed.
+
+(* ------------------------------------------------------------------------------------ setter guards *)
+
+Lemma cmp_bound_int z b : cmp_bound z 0 b = Z.compare z b.
+Proof. unfold cmp_bound. simpl. rewrite Z.mul_1_r. reflexivity. Qed.
+
+(* lo + 1/2 written 10*lo+5 e-1 *)
+Lemma cmp_bound_half lo b : cmp_bound (10 * lo + 5) (-1) b = (if (lo <? b)%Z then Lt else Gt).
+Proof.
+  unfold cmp_bound. change (0 <=? -1)%Z with false. cbv iota.
+  change (10 ^ (- -1))%Z with 10%Z.
+  destruct (lo <? b)%Z eqn:E.
+  - apply Z.ltb_lt in E. apply Z.compare_lt_iff. lia.
+  - apply Z.ltb_ge in E. apply Z.compare_gt_iff. lia.
+Qed.
+
+Theorem guard_inhabited_sound : forall g, guard_inhabited g = true -> exists v, guard_check g v = None.
+Proof.
+  intros [|lo hi ls hs|lo ls]; cbn [guard_inhabited].
+  - intros _. exists VNone. reflexivity.
+  - destruct ls, hs; cbn [andb orb]; intros H.
+    + (* both strict: lo + 1/2 *)
+      exists (VDec (10 * lo + 5) (-1)). cbn [guard_check num_of]. unfold lo_ok, hi_ok. rewrite !cmp_bound_half.
+      apply Z.ltb_lt in H. assert (E1 : (lo <? lo)%Z = false) by (apply Z.ltb_ge; lia).
+      rewrite E1. assert (E2 : (lo <? hi)%Z = true) by (apply Z.ltb_lt; lia). rewrite E2. reflexivity.
+    + exists (VInt hi). cbn [guard_check num_of]. unfold lo_ok, hi_ok. rewrite !cmp_bound_int, Z.compare_refl.
+      apply Z.ltb_lt in H. assert (E : (hi ?= lo)%Z = Gt) by (apply Z.compare_gt_iff; lia). rewrite E. reflexivity.
+    + exists (VInt lo). cbn [guard_check num_of]. unfold lo_ok, hi_ok. rewrite !cmp_bound_int, Z.compare_refl.
+      apply Z.ltb_lt in H. assert (E : (lo ?= hi)%Z = Lt) by (apply Z.compare_lt_iff; lia). rewrite E. reflexivity.
+    + exists (VInt lo). cbn [guard_check num_of]. unfold lo_ok, hi_ok. rewrite !cmp_bound_int, Z.compare_refl.
+      apply Z.leb_le in H. destruct (lo ?= hi)%Z eqn:E; try reflexivity.
+      apply Z.compare_gt_iff in E. lia.
+  - intros _. exists (VInt (lo + 1)). cbn [guard_check num_of]. unfold lo_ok. rewrite cmp_bound_int.
+    assert (E : (lo + 1 ?= lo)%Z = Gt) by (apply Z.compare_gt_iff; lia). rewrite E. reflexivity.
+Qed.
+
+Theorem guards_inhabited_all : forall tbl,
+  forallb (fun x : string * string * guard => guard_inhabited (snd x)) tbl = true ->
+  forall c f g, In (c, f, g) tbl -> exists v, guard_check g v = None.
+Proof.
+  intros tbl H c f g Hin. rewrite forallb_forall in H. apply guard_inhabited_sound. exact (H _ Hin).
+Qed.
+
+(* what an accepted assignment through a guarded setter implies: the value passed the guard *)
+Lemma assign_respects_guard t att v t' k ms g c :
+  t = Node k ms -> (k = NObj true \/ k = NObj false \/ k = NGroup) ->
+  find is_prop att ms = Some (KProp true g, c) -> assign t att v = Ok t' -> guard_check g v = None.
+Proof.
+  intros -> Hk Hf. simpl. destruct Hk as [->|[->| ->]]; rewrite Hf; destruct (guard_check g v); congruence.
+Qed.
